@@ -500,6 +500,8 @@ class OpenRPC(Specification):
                 ref_template=f'{request_ref_prefix}{{model}}',
                 exclude=method.excluded_params,
             )
+            # an extractor returns either an object schema (pydantic) or a bare name -> schema mapping (docstring, base)
+            properties = params_schema.get('properties', {}) if params_schema.get('type') == 'object' else params_schema
             params_descriptors = [
                 ContentDescriptor(
                     name=name,
@@ -508,7 +510,7 @@ class OpenRPC(Specification):
                     description=schema.get('description', UNSET),
                     required=name in params_schema.get('required', []),
                     deprecated=schema.get('deprecated', UNSET),
-                ) for name, schema in params_schema['properties'].items()
+                ) for name, schema in properties.items()
             ]
 
             spec.components.schemas = schemas = spec.components.schemas or {}
